@@ -39,7 +39,7 @@ PROPS = {
     },
     "C16": {
         "modules": ["PrioProofs.Props.C16", "PrioProofs.Props.C16Poplar"],
-        "rule": "constructors of Sum, Average, Histogram, MultihotCountVec, SumVec, L1BoundSum over Field64 and Field128 on the argument lattice {0,1,2,3,8,1000,2^32-2,2^32-1,2^32,2^63-1,2^63,usize::MAX-1,usize::MAX} (thorough: 26 values incl. random ones; full cube for the 3-parameter constructors) x integer bounds {0,1,2,3,255,256,p-2,p-1,p,p+1,MAX}; accepted small instances must prove and verify their extreme measurements; encode_measurement on in-range, boundary, out-of-range and wrong-length measurements; Prio3::new on (aggregators, proofs) incl. 0, 254, 255; Prio2::new on 24 (thorough 64) lengths up to usize::MAX; Prio3 verify_init / verifier_shares_to_message / verify_next on hand-built leader shares (measurement or proofs empty, short, long, one proof of many), missing or unexpected blinds and parts, shares, states and messages of an instance with the opposite joint-randomness use, aggregator ids up to usize::MAX, share counts 0..512+n incl. 256+n; thorough: instances beyond the transform limit (600000 buckets, chunk 1) through prove and verify_init; Prio2, Poplar1 (zero bits, wrong heights, levels beyond the tree, depth 40000) and DP constructors by oracle; Prio2::new accepts exactly the dimensions with 2*next_power_of_two(n+1) <= 2^20 (oracle); gadgets called directly (Mul, PolyEval, ParallelSum with 2 and with 0 chunks): eval with 0..arity+2 inputs, eval_poly with missing / extra wires, wires of different lengths, output buffers of the wrong length; Idpf::gen with too few / too many inner values and an empty input; non-trivial = all;",
+        "rule": "constructors of Sum, Average, Histogram, MultihotCountVec, SumVec, L1BoundSum over Field64 and Field128 on the argument lattice {0,1,2,3,8,1000,2^32-2,2^32-1,2^32,2^63-1,2^63,usize::MAX-1,usize::MAX} (thorough: 26 values incl. random ones; full cube for the 3-parameter constructors) x integer bounds {0,1,2,3,255,256,p-2,p-1,p,p+1,MAX}; accepted small instances must prove and verify their extreme measurements; encode_measurement on in-range, boundary, out-of-range and wrong-length measurements; Prio3::new on (aggregators, proofs) incl. 0, 254, 255; Prio2::new on 24 (thorough 64) lengths up to usize::MAX; Prio3 verify_init / verifier_shares_to_message / verify_next on hand-built leader shares (measurement or proofs empty, short, long, one proof of many), missing or unexpected blinds and parts, shares, states and messages of an instance with the opposite joint-randomness use, aggregator ids up to usize::MAX, share counts 0..512+n incl. 256+n; thorough: instances beyond the transform limit (600000 buckets, chunk 1) through prove and verify_init; Prio2, Poplar1 (zero bits, wrong heights, levels beyond the tree, depth 40000) and DP constructors by oracle; Prio2::new accepts exactly the dimensions with 2*next_power_of_two(n+1) <= 2^20 (oracle); gadgets called directly (Mul, PolyEval, ParallelSum with 2 and with 0 chunks): eval with 0..arity+2 inputs, eval_poly with missing / extra wires, wires of different lengths, output buffers of the wrong length; Idpf::gen with too few / too many inner values and an empty input; decode_result of every type on 0, len-1, len, len+1, 2len+1 elements; MultihotCountVec weight bounds p-2 .. p+1; non-trivial = all;",
         "trusted": COMMON_TRUST + ["XOF expansion terminating and FLP query not panicking are hypotheses of the Prio3 no-panic theorems (decide is proved panic-free; C05/C11 cover query and the XOF by correspondence)"],
         "assumptions": ["allocation-proportional operations are exercised only below a memory budget (instances up to 2048 inputs, Poplar1 up to 40000 bits)", "Poplar1/Prio2 protocol operations and DP constructors: oracle only"],
     },
@@ -69,7 +69,7 @@ PROPS = {
     },
     "C05": {
         "modules": ["PrioProofs.Props.C05", "PrioProofs.Props.C05Language", "PrioProofs.Props.Deployed"],
-        "rule": "all circuits (Count, Sum/Average at bit-width edges, Histogram with dividing / non-dividing / oversize chunk lengths, SumVec, MultihotCountVec, L1BoundSum) x valid encodings and invalid vectors (non-bits, wrong weight, inconsistent norm, affine-only near-misses) x randomness (uniform, zeros, ones, repeats, roots of unity of the wire domain) x 1,2,3,5 shares with random and degenerate sharings x every wrong length; byte-exact proofs, verifier messages and decisions; vectors whose only defect is one non-bit entry at the first / middle / last-but-one / last position (solved from the linear relation) for Histogram, MultihotCountVec and L1BoundSum; chunk lengths that divide the vector length but not the encoded length and the reverse; non-trivial = all;",
+        "rule": "all circuits (Count, Sum/Average at bit-width edges, Histogram with dividing / non-dividing / oversize chunk lengths, SumVec, MultihotCountVec, L1BoundSum) x valid encodings and invalid vectors (non-bits, wrong weight, inconsistent norm, affine-only near-misses) x randomness (uniform, zeros, ones, repeats, roots of unity of the wire domain) x 1,2,3,5 shares with random and degenerate sharings x every wrong length; byte-exact proofs, verifier messages and decisions; vectors whose only defect is one non-bit entry at the first / middle / last-but-one / last position (solved from the linear relation) for Histogram, MultihotCountVec and L1BoundSum; chunk lengths that divide the vector length but not the encoded length and the reverse; prover randomness at lengths 0, 1, len-1, len+1, 2len; non-trivial = all;",
         "trusted": COMMON_TRUST,
         "assumptions": ["soundness is sampled by the oracle (honestly proved invalid inputs and altered gadget-polynomial elements are rejected under uniform randomness); it is not expressed as a probability"],
     },
